@@ -61,6 +61,7 @@ class AxArr:
     """axes: tuple of (frozenset of labels, size)."""
 
     axes: tuple[tuple[frozenset, int], ...]
+    dtype: Any = None  # only for rules that need to tell masks from integer arrays
 
     @property
     def shape(self) -> tuple[int, ...]:
@@ -299,7 +300,7 @@ _PURE_BUILTINS: dict[str, Any] = {
     'ord': ord, 'chr': chr,
 }  # fmt: skip
 
-_TYPE_NAMES = {'int': int, 'tuple': tuple, 'list': list, 'str': str, 'bool': bool, 'float': float, 'range': range, 'dict': dict, 'set': set}
+_TYPE_NAMES = {'int': int, 'tuple': tuple, 'list': list, 'str': str, 'bool': bool, 'float': float, 'range': range, 'dict': dict, 'set': set, 'slice': slice}
 
 
 def _concrete(v: Any) -> bool:
@@ -604,6 +605,8 @@ class Interp:
             return transpose(a)
         if name in ('real', 'imag'):
             return a
+        if name == 'dtype':
+            return a.dtype if a.dtype is not None else UNK
         if name == 'reshape':
             return lambda *s, **k: reshape(a, s[0] if len(s) == 1 else tuple(s))
         if name == 'transpose':
@@ -817,6 +820,14 @@ class Interp:
                 if isinstance(v, Obj):
                     res = res or self.table.is_subclass(v.cls, x.cls)
                 continue
+            if isinstance(x, Ref) and x.path.split('.')[-1] in ('EllipsisType', 'ellipsis'):
+                res = res or v is Ellipsis
+                continue
+            if isinstance(x, Ref) and x.path.split('.')[-1] == 'NoneType':
+                res = res or v is None
+                continue
+            if isinstance(x, Ref) and x.path.split('.')[-1] == 'generic':
+                continue  # numpy scalars: none of the abstract values is one
             if isinstance(x, Ref) and x.path.split('.')[-1] in ('Array', 'ndarray', 'ArrayLike'):
                 res = res or isinstance(v, AxArr)
                 continue
